@@ -55,9 +55,39 @@ class EqInfo:
                 out |= self._expand(n.attr) if n.attr != attr else {attr}
         return out or {attr}
 
-    def _byte_level(self, fn):
+    def _helper(self, call):
+        """(FunctionDef, parameter names as seen by the caller's arguments) of `self.H(..)`, `Cls.H(..)` - a method of the class or
+        of one of its bases (staticmethod: all parameters; instance method called on `self`: parameters after self; called through
+        the class: all parameters, the first being the instance)"""
+        f_ = call.func
+        if not (isinstance(f_, ast.Attribute) and isinstance(f_.value, ast.Name)):
+            return None
+        m = self.prog.lookup_method(self.c, f_.attr)
+        if m is None and f_.value.id not in (self.sn,):
+            k = self.prog.resolve_class(self.c.module, f_.value.id)
+            m = self.prog.lookup_method(k, f_.attr) if k is not None else None
+        if m is None:
+            return None
+        allp = [a.arg for a in m.node.args.args]
+        static = any(norm(d) == "staticmethod" for d in m.node.decorator_list)
+        if f_.value.id == self.sn and not static:
+            return m.node, allp[1:], allp[0], self.sn
+        return m.node, allp, None, None
+
+    def _byte_level(self, fn, sn=None, on=None, depth=0):
         """both operands are serialised into their own scratch buffer and the buffers' contents are compared"""
-        sn, on = self.sn, self.on
+        sn, on = sn or self.sn, on or self.on
+        if depth < 2:
+            # `return self.H(other)` / `return Base.H(self, other)` where H is itself such a comparison of its two operands
+            rets_ = [s_ for s_ in walk_no_nested(fn) if isinstance(s_, ast.Return) and s_.value is not None]
+            if len(rets_) == 1 and isinstance(rets_[0].value, ast.Call) and not rets_[0].value.keywords and all(isinstance(a, ast.Name) for a in rets_[0].value.args):
+                h = self._helper(rets_[0].value)
+                if h is not None:
+                    hn, params, hself, bound = h
+                    actual = ([bound] if bound else []) + [a.id for a in rets_[0].value.args]
+                    formal = ([hself] if hself else []) + params
+                    if len(actual) == len(formal) == 2 and set(actual) == {sn, on}:
+                        return self._byte_level(hn, formal[0], formal[1], depth + 1)
         defs = {}
         for n in walk_no_nested(fn):
             if isinstance(n, ast.Assign) and len(n.targets) == 1 and isinstance(n.targets[0], ast.Name):
@@ -80,6 +110,21 @@ class EqInfo:
                 return content_of(defs[e.id][0], depth + 1)
             if isinstance(e, ast.Call) and isinstance(e.func, ast.Attribute) and e.func.attr in ("getvalue", "getbuffer") and isinstance(e.func.value, ast.Name):
                 return owner.get(e.func.value.id)
+            if isinstance(e, ast.Call) and depth < 3 and len(e.args) == 1 and not e.keywords and isinstance(e.args[0], ast.Name) and e.args[0].id in (sn, on):
+                # H(x) where H serialises its one operand into a buffer of its own and returns the buffer's content
+                h = self._helper(e)
+                if h is not None and len(h[1]) == 1 and h[2] is None:
+                    hn, p_ = h[0], h[1][0]
+                    hdefs = {}
+                    for n_ in walk_no_nested(hn):
+                        if isinstance(n_, ast.Assign) and len(n_.targets) == 1 and isinstance(n_.targets[0], ast.Name):
+                            hdefs.setdefault(n_.targets[0].id, []).append(n_.value)
+                    bufs = [b for b, v in hdefs.items() if len(v) == 1 and isinstance(v[0], ast.Call) and norm(v[0].func) in ("BytesIO", "io.BytesIO") and not v[0].args]
+                    writes = [c_ for c_ in walk_no_nested(hn) if isinstance(c_, ast.Call) and isinstance(c_.func, ast.Attribute) and c_.func.attr == "_write"
+                              and isinstance(c_.func.value, ast.Name) and c_.func.value.id == p_ and len(c_.args) == 1 and isinstance(c_.args[0], ast.Name) and c_.args[0].id in bufs]
+                    hrets = [s_ for s_ in walk_no_nested(hn) if isinstance(s_, ast.Return) and s_.value is not None]
+                    if len(bufs) == 1 and len(writes) == 1 and len(hrets) == 1 and norm(hrets[0].value) in (f"{bufs[0]}.getvalue()", f"bytes({bufs[0]}.getbuffer())"):
+                        return e.args[0].id
             return None
 
         rets = [s_ for s_ in walk_no_nested(fn) if isinstance(s_, ast.Return) and s_.value is not None]
